@@ -468,7 +468,10 @@ func (db *DB) Count(count *int64) (tx *DB) {
 			tx.Statement.Clauses["SELECT"] = selectClause
 		}()
 	} else {
-		defer delete(tx.Statement.Clauses, "SELECT")
+		// tx may be another handle by then: a scope can derive a session
+		defer func() {
+			delete(tx.Statement.Clauses, "SELECT")
+		}()
 	}
 
 	if len(tx.Statement.Selects) == 0 {
